@@ -188,6 +188,22 @@ InclInside(kind, fault) ==
   LET w == Wrap(<<kind>>, 1, 0, 1, L(<<>>, "INCLUDE", <<"I1", ".", "INC">>))
   IN [f \in {"a.asm", "I1.INC"} |-> IF f = "a.asm" THEN <<Clean(1)>> \o w.defs \o w.body ELSE <<Clean(2), FLT(fault), Clean(3)>>]
 
+\* a faulty line AFTER a construct has completed: the line counter of the file must be what it was (MomLineCounter
+\* is saved in the FILE tag by ExpandINCLUDE_Core and restored by INCLUDE_Restorer; tag.startLine / st.momLine in
+\* MacroProc).  inc: the innermost body line is an INCLUDE (read from inside the construct nest), else a clean line;
+\* where = "main": everything in the main file; "inc": the construct nest and a faulty line live in I2.INC, a second
+\* faulty line follows the INCLUDE of I2.INC in the main file (after nested includes have returned).
+AfterProg(kinds, inc, pre, post, cont, fault, where) ==
+  LET innermost == IF inc THEN L(<<>>, "INCLUDE", <<"I1", ".", "INC">>) ELSE Clean(5)
+      w == Wrap(kinds, 1, pre, post, innermost)
+      tail == (IF cont > 0 THEN <<ContLine(cont)>> ELSE <<>>) \o <<FLT(fault), Clean(8)>>
+      nest == <<Clean(1)>> \o w.defs \o w.body \o tail
+  IN [f \in {"a.asm", "I1.INC", "I2.INC"} |->
+        IF f = "I1.INC" THEN <<Clean(2), ContLine(1), Clean(3)>>
+        ELSE IF where = "main" THEN (IF f = "a.asm" THEN nest ELSE <<Clean(4)>>)
+        ELSE IF f = "I2.INC" THEN nest
+        ELSE <<Clean(6), L(<<>>, "INCLUDE", <<"I2", ".", "INC">>), FLT(fault), Clean(7)>>]
+
 \* EXPECT blocks: announced numbers A (sequence), occurring faults O (sequence of fault ops)
 ExpectProg(A, O, closed, nested) ==
   [f \in {"a.asm"} |->
